@@ -31,7 +31,7 @@ pub struct Plan {
     pub assumptions: Vec<&'static str>,
 }
 
-const CONC_RULE: &str = "each run = seeded configuration + sequential setup + symbolic per-thread programs + one seeded schedule (uniform / PCT / burst / stall, optional spurious weak-CAS failures) executed on the real allocator under the token scheduler; distinct = distinct hash of (programs, setup, config, full sequence of (thread, region, offset, op, success) atomic steps); non-trivial = at least one cross-thread conflict (two threads touching the same metadata word, one of them writing)";
+const CONC_RULE: &str = "each run = seeded configuration + sequential setup + symbolic per-thread programs + one seeded schedule (uniform / PCT / burst / after-write / stall, optional spurious weak-CAS failures; family KE derives cases from earlier ones that reached new metadata states: recorded schedule prefix + seeded tail, injected preemption, changed operations or faults) executed on the real allocator under the token scheduler; distinct = distinct hash of (programs, setup, config, full sequence of (thread, region, offset, op, success) atomic steps); non-trivial = at least one cross-thread conflict (two threads touching the same metadata word, one of them writing)";
 const SEQ_RULE: &str = "each run = seeded configuration + one seeded sequential history executed call by call against the reference model; distinct = distinct hash of the concrete (call, result) sequence; non-trivial = at least one state-changing (or, for C08, rejected malformed) call";
 
 const BASE_ASSUME: [&str; 3] = [
@@ -42,7 +42,7 @@ const BASE_ASSUME: [&str; 3] = [
 
 pub fn plan(prop: &str) -> Option<Plan> {
     let conc = |q: u64, t: u64| -> Vec<Part> {
-        vec![p("K1", q, t), p("K2", q, t), p("K3", q, t), p("K4", q, t), p("K5", q, t), p("K6", q, t), p("K7", q, t), p("K8", q, t)]
+        vec![p("K1", q, t), p("K2", q, t), p("K3", q, t), p("K4", q, t), p("K5", q, t), p("K6", q, t), p("K7", q, t), p("K8", q, t), p("KE", q, t)]
     };
     let mut assumptions: Vec<&'static str> = BASE_ASSUME.to_vec();
     let (level, parts, rule): (&str, Vec<Part>, &str) = match prop {
@@ -188,8 +188,14 @@ pub fn worker(args: &[String]) -> i32 {
             _ => part.quick,
         };
         let mut fam_samples = 0;
-        let mut index = shard;
-        while index < runs {
+        let evolving = part.family == "KE";
+        let indices: Vec<u64> = if evolving {
+            crate::conc::ke_indices(runs, shard, nshards)
+        } else {
+            (shard..runs).step_by(nshards as usize).collect()
+        };
+        let mut evolve = crate::conc::Evolve::default();
+        for index in indices {
             if start.elapsed().as_secs_f64() > time_cap {
                 truncated = true;
                 break;
@@ -200,8 +206,15 @@ pub fn worker(args: &[String]) -> i32 {
                 let line = format!("{:<10}{:>20}{:>24}\n", part.family, index, rs);
                 let _ = cur.write_at(line.as_bytes(), 0);
             }
-            let (mut case, gen_steps) = Case::generate(part.family, rs, index, props);
+            let (mut case, gen_steps) = if evolving {
+                (Case::Conc(evolve.next(index, rs, &crate::case::gen_opts(props))), None)
+            } else {
+                Case::generate(part.family, rs, index, props)
+            };
             let out = case.run(&ctx, props, gen_steps);
+            if let (true, Case::Conc(c)) = (evolving, &case) {
+                evolve.feedback(index, c, &out.state_hashes);
+            }
             evaluations += 1;
             *per_family.entry(part.family.to_string()).or_default() += 1;
             for (k, v) in &out.counters {
@@ -243,7 +256,11 @@ pub fn worker(args: &[String]) -> i32 {
                 let c = e.gu("count") + 1;
                 e.put("count", c);
             }
-            index += nshards;
+        }
+        if evolving {
+            *counters.entry("evolve_fresh_cases".into()).or_default() += evolve.fresh;
+            *counters.entry("evolve_mutated_cases".into()).or_default() += evolve.mutated;
+            *counters.entry("evolve_cases_kept_for_new_states".into()).or_default() += evolve.kept;
         }
     }
     hashes.sort_unstable();
